@@ -478,6 +478,8 @@ def _match_b(exp, status, got, consumed, injected, sent, env_s, whole=False):
             return None if (status == "RETL" and (whole or got == sent[:limit])) else "input-stream:over-max-not-RETL"
         if len(sent) == limit:
             # cannot be told from "longer" without over-reading: both outcomes accepted
+            if status == "RETL" and whole:
+                return None
             return None if (status in ("ok", "RETL") and got == sent) else "input-stream:max-exact-wrong"
         return None if (status == "ok" and got == sent) else "input-stream:within-max-wrong"
     if len(sent) < limit:
